@@ -706,3 +706,5 @@ Definition check_wf_ms (p : prog) : bool := negb (wf_prog p) || check_ms p.
 (* one pass over the cases in the common (all agree) situation *)
 Definition check_mech_restored (c : core_case) : bool := check_mech c && check_restored (fst c).
 Definition check_all (c : core_case) : bool := check_mech c && check_restored (fst c) && check_ms (fst c).
+Definition mech_unsup_p (p : prog) : bool :=
+  match mrender_prog 200 p with MUnsup _ => false | _ => true end.
